@@ -181,6 +181,15 @@ func RunWaits(r *common.Run) {
 	runWake(r, true)
 	r.Mark("case ibb-wake 2")
 	runStale(r)
+	// several goroutines blocked in Read when the stream ends
+	nr := 0
+	for k := 2; k <= 4; k++ {
+		for _, ev := range []string{"c", "C", "p,c", "p,C"} {
+			r.Mark("case ibb-readers %d", nr)
+			nr++
+			runReaders(r, k, ev)
+		}
+	}
 	for i, f := range []string{"none", "flush", "send", "reply", "deadline"} {
 		r.Mark("case ibb-close-fail %d", i)
 		runCloseFail(r, f, false)
@@ -226,6 +235,15 @@ func Run(r *common.Run) error {
 				}
 				runWake(r, false)
 				runWake(r, true)
+			case "readers":
+				k, _ := strconv.Atoi(f[2])
+				for _, ev := range []string{"c", "C"} {
+					e := ev
+					if strings.HasPrefix(f[3], "P") {
+						e = "p," + ev
+					}
+					runReaders(r, k, e)
+				}
 			case "lsn":
 				ops := strings.Split(f[2], ",")
 				for i := range ops {
@@ -282,6 +300,14 @@ func Run(r *common.Run) error {
 	runWake(r, true)
 	r.Mark("case wake 2")
 	runStale(r)
+	nrd := 0
+	for k := 2; k <= 4; k++ {
+		for _, ev := range []string{"c", "C", "p,c", "p,C"} {
+			r.Mark("case readers %d", nrd)
+			nrd++
+			runReaders(r, k, ev)
+		}
+	}
 	for i, f := range []string{"none", "flush", "send", "reply", "deadline"} {
 		r.Mark("case close-fail %d", i)
 		runCloseFail(r, f, false)
